@@ -94,9 +94,54 @@ type Exec struct {
 	witness    map[string]SV
 	defers     []deferred
 	privCache  map[ssa.Value]privInfo
+	inExc      bool // processing exceptional exits: do not record new ones
 	strIters   []*ssa.Range
 	root       *Exec
 	parentExec *Exec
+	excExits   []excExit // exceptional exits of this activation (recorded on the outermost Exec)
+	pendExc    []Term    // conditions under which the instruction being executed panics
+}
+
+// excExit: a state in which the activation under verification may be left by a panic: the heap at a program point
+// (a run-time check or explicit panic fails there), or the heap a callee leaves behind when it panics.
+type excExit struct {
+	reach  Term
+	heap   *Heap
+	defers []deferred
+	block  *ssa.BasicBlock
+	what   string
+	pos    token.Position
+}
+
+// outer returns the Exec of the function under verification (inlined callees and spec contexts hang below it).
+func (ex *Exec) outer() *Exec {
+	e := ex
+	for e.parentExec != nil {
+		e = e.parentExec
+	}
+	return e
+}
+
+func (ex *Exec) wantsExc() bool {
+	o := ex.outer()
+	return o.contract != nil && len(o.contract.OnPanic) > 0 && ex.q.pureDepth == 0 && !o.inExc
+}
+
+// recordExit notes that execution may leave the function under verification by a panic in heap h.
+func (ex *Exec) recordExit(reach Term, h *Heap, at ssa.Instruction, what string) {
+	if !ex.wantsExc() {
+		return
+	}
+	o := ex.outer()
+	var b *ssa.BasicBlock
+	pos := token.Position{}
+	if at != nil {
+		pos = ex.pos(at)
+		if at.Parent() == o.fn {
+			b = at.Block()
+		}
+	}
+	o.excExits = append(o.excExits, excExit{reach: reach, heap: h.clone(), defers: append([]deferred(nil), o.defers...), block: b, what: what, pos: pos})
 }
 
 type unsupportedErr struct{ msg string }
@@ -132,6 +177,9 @@ func (ex *Exec) safety(kind string, guard, goal Term, at ssa.Instruction, commen
 			ex.q.assume(implies(guard, goal))
 		}
 	}()
+	if ex.wantsExc() {
+		ex.pendExc = append(ex.pendExc, and(guard, not(goal)))
+	}
 	if ex.skipSafety {
 		return
 	}
@@ -568,6 +616,7 @@ func (ex *Exec) runBlock(b *ssa.BasicBlock) {
 		}
 	}
 	ex.reach[b] = reach
+	exc := ex.wantsExc()
 	for _, ins := range b.Instrs {
 		if phi, ok := ins.(*ssa.Phi); ok {
 			if _, done := ex.vals[phi]; done {
@@ -576,7 +625,17 @@ func (ex *Exec) runBlock(b *ssa.BasicBlock) {
 			ex.doPhi(phi, b, conds, predIdx)
 			continue
 		}
+		// a failing run-time check (or explicit panic) at ins leaves the function in the heap before ins
+		var snap *Heap
+		if exc {
+			snap = heap.clone()
+			ex.pendExc = nil
+		}
 		ex.instr(ins, b, heap, reach)
+		if exc && len(ex.pendExc) > 0 {
+			ex.recordExit(or(ex.pendExc...), snap, ins, "run-time failure or explicit panic")
+			ex.pendExc = nil
+		}
 	}
 	ex.endHeap[b] = heap
 	ex.exitEdges(b, heap, reach)
@@ -837,6 +896,9 @@ func (ex *Exec) instr(ins ssa.Instruction, b *ssa.BasicBlock, h *Heap, reach Ter
 			q.oblige(name, "unreach.panic", reach, tFalse, ex.pos(x), "explicit panic: "+msg)
 		}
 		ex.panicked = append(ex.panicked, retInfo{reach: reach, heap: h.clone()})
+		if ex.wantsExc() {
+			ex.pendExc = append(ex.pendExc, reach)
+		}
 	case *ssa.RunDefers:
 		ex.runDefers(x, h, reach)
 	case *ssa.Defer:
@@ -1793,6 +1855,69 @@ type privInfo struct {
 	users []ssa.Instruction
 }
 
+// readOnlyCaptured: a local variable captured only by closures that are deferred or called directly by this function
+// and that only read it: no callee can change it, so its content survives heap havocs.
+func readOnlyCaptured(a *ssa.Alloc) bool {
+	if a.Referrers() == nil {
+		return false
+	}
+	for _, r := range *a.Referrers() {
+		switch x := r.(type) {
+		case *ssa.DebugRef:
+		case *ssa.UnOp:
+			if x.X != ssa.Value(a) {
+				return false
+			}
+		case *ssa.Store:
+			if x.Addr != ssa.Value(a) || x.Val == ssa.Value(a) {
+				return false
+			}
+		case *ssa.MakeClosure:
+			if x.Referrers() == nil {
+				return false
+			}
+			for _, r2 := range *x.Referrers() {
+				switch y := r2.(type) {
+				case *ssa.DebugRef:
+				case *ssa.Defer:
+					if y.Call.Value != ssa.Value(x) {
+						return false
+					}
+				case *ssa.Call:
+					if y.Call.Value != ssa.Value(x) {
+						return false
+					}
+				default:
+					return false
+				}
+			}
+			fn := x.Fn.(*ssa.Function)
+			for i, b := range x.Bindings {
+				if b != ssa.Value(a) {
+					continue
+				}
+				if i >= len(fn.FreeVars) || fn.FreeVars[i].Referrers() == nil {
+					return false
+				}
+				for _, r3 := range *fn.FreeVars[i].Referrers() {
+					switch z := r3.(type) {
+					case *ssa.DebugRef:
+					case *ssa.UnOp:
+						if z.X != ssa.Value(fn.FreeVars[i]) {
+							return false
+						}
+					default:
+						return false
+					}
+				}
+			}
+		default:
+			return false
+		}
+	}
+	return true
+}
+
 // privateFreeVar: the captured variable behind fv can change, while the closure fv belongs to runs, only through
 // that activation's own stores.  Conditions (checked on SSA): the variable is captured by exactly one closure
 // creation site, that closure value is only deferred or called directly by its creator (never stored or passed, so no
@@ -1925,7 +2050,7 @@ func (ex *Exec) havocAllKeep(h *Heap, guard Term, loop ...*Loop) *Heap {
 		}
 		for v, ref := range e.vals {
 			a, isAlloc := v.(*ssa.Alloc)
-			if !isAlloc || !privateAlloc(a) {
+			if !isAlloc || !(privateAlloc(a) || readOnlyCaptured(a)) {
 				continue
 			}
 			et := a.Type().(*types.Pointer).Elem()
